@@ -10,10 +10,12 @@ from pyworkers.persistent_remote import PersistentRemoteWorker
 
 
 class StateMixin:
-    def run(self, *args, marker=None, m=2, ending='return', **kwargs):
+    def run(self, *args, marker=None, m=2, ending='return', big=0, **kwargs):
         seen = self.user_state
         for j in range(1, m + 1):
             self.user_state = ['assigned', j]
+        if big:
+            self.user_state = ['big', 's' * big]
         if ending == 'raise':
             raise ValueError('a', 1)
         if ending == 'spin':
